@@ -215,8 +215,18 @@ def secondPass (maps pm : List MapAdd) (f : SFrame) : Info :=
   let la := f.lookupAddr
   if f.kernel then { frame := .raw la } else
   match lookupH maps pm la with
-  | some m => { frame := .lib m.lib (m.rel + (la - m.start)), js := m.js }
+  -- `LibMappings::convert_address` (fxprof lib_mappings.rs:124-125): `(avma − start) as u32` truncates, the
+  -- addition is a `u32` addition (overflow = panic in a debug build: `secondPassSafe`)
+  | some m => { frame := .lib m.lib (m.rel + (la - m.start) % 2 ^ 32), js := m.js }
   | none => { frame := .raw la }
+
+/-- the `u32` addition of `convert_address` does not overflow -/
+def secondPassSafe (maps pm : List MapAdd) (f : SFrame) : Bool :=
+  let la := f.lookupAddr
+  if f.kernel then true else
+  match lookupH maps pm la with
+  | some m => decide (m.rel + (la - m.start) % 2 ^ 32 < 2 ^ 32)
+  | none => true
 
 /-- the frame of the second pass without the perf-map level (the regular-library attribution of C02) -/
 def convertFrame (maps : List MapAdd) (f : SFrame) : Frame := (secondPass maps [] f).frame
@@ -301,6 +311,13 @@ def flushBuffer (pm : List MapAdd) : List MapAdd → List (Nat × MapAdd) → Li
              synth := u.synth })
       :: flushBuffer pm r.1 r.2 us
 
+/-- no frame of any sample of the buffer overflows the `u32` addition of `convert_address` -/
+def flushBufferSafe (pm : List MapAdd) : List MapAdd → List (Nat × MapAdd) → List USample → Bool
+  | _, _, [] => true
+  | maps, q, u :: us =>
+    let r := processOps maps q u.tmono
+    u.stack.all (secondPassSafe r.1 pm) && flushBufferSafe pm r.1 r.2 us
+
 /-- all buffers in the order `Processes::finish` flushes them: parked first, then live processes
 (hash-map order in the code; irrelevant for the per-thread projection below up to the order of samples
 of different buffers, which the serializer sorts by time) -/
@@ -309,6 +326,10 @@ def allBuffers (s : St) : List (List USample × List (Nat × MapAdd) × Nat) :=
 
 def flushAll (s : St) : List (Nat × OutSample) :=
   (allBuffers s).flatMap (fun b => flushBuffer (perfMapTable s.cfg b.2.2) [] b.2.1 b.1)
+
+/-- the flush performs no overflowing `u32` addition -/
+def flushAllSafe (s : St) : Bool :=
+  (allBuffers s).all (fun b => flushBufferSafe (perfMapTable s.cfg b.2.2) [] b.2.1 b.1)
 
 /-- `try_load_perf_map` runs in `Process::finish` of every process that has buffered samples: the import
 panics iff one of those loads does -/
